@@ -127,6 +127,9 @@ func c14(c *Ctx) {
 		{fn: "codecs.(*H265AggregationPacket).Unmarshal", want: []int{4}, minOnly: true, why: "2 header octets + first unit size field (lower bound of the analysis; the true minimum is 6)"},
 		{fn: "codecs.(*H265Packet).Unmarshal", want: []int{3}, minOnly: true, why: "shortest form is the single NAL unit packet"}})
 	r.Floor("H265 DONL presence rows", np, 2)
+	if ns := staleRule(c, "codecs.(*H265Payloader).Payload"); ns == 0 {
+		r.Infof("STRUCT.stale: no reader/writer closure pair found in H265Payloader.Payload; rule not decided")
+	}
 	na := 0
 	for _, nme := range []string{"codecs.(*H265AggregationPacket).Unmarshal", "codecs.(*H265SingleNALUnitPacket).Unmarshal", "codecs.(*H265FragmentationUnitPacket).Unmarshal", "codecs.(*H265PACIPacket).Unmarshal"} {
 		if f := p.Func(nme); f != nil {
